@@ -200,7 +200,7 @@ impl Harness for StateScen {
         let mut conns: Vec<ConnS> = (0..n).map(|i| ConnS { wire: Wire::new(i, Some(cx.clone())), asked: vec![], watching: false, gone: false }).collect();
         for c in &conns {
             // a write may find the transport not ready once (a deviation), then goes through
-            c.wire.0.borrow_mut().write_pend_dev = true;
+            c.wire.0.borrow_mut().write_pend_dev = self.max_conns >= 3 && !self.bursts.contains(&B::Hangup);
             listener.connect(c.wire.clone());
         }
         let mut next_v = 0u32;
